@@ -1,0 +1,66 @@
+//go:build verif
+
+package layer
+
+import (
+	"github.com/containerd/stargz-snapshotter/fs/reader"
+	"github.com/containerd/stargz-snapshotter/fs/remote"
+	fusefs "github.com/hanwen/go-fuse/v2/fs"
+	digest "github.com/opencontainers/go-digest"
+	ocispec "github.com/opencontainers/image-spec/specs-go/v1"
+)
+
+// Verification hooks (build tag "verif" only) for property C07: obtain the root node of a layer through
+// (*layer).RootNode, and classify node objects returned by Lookup. No behaviour change.
+
+// VerifNewRootNodeC07 builds a verified layer object around the given reader and blob (what Resolver.Resolve + Verify
+// leave behind, minus registry and prefetch) and returns the result of the real (*layer).RootNode.
+func VerifNewRootNodeC07(layerDgst digest.Digest, r reader.Reader, blob remote.Blob, baseInode uint32, opaque OverlayOpaqueType) (fusefs.InodeEmbedder, error) {
+	l := newLayer(
+		&Resolver{overlayOpaqueType: opaque},
+		ocispec.Descriptor{Digest: layerDgst},
+		&blobRef{blob, func(bool) {}},
+		nil,
+		passThroughConfig{},
+		false,
+	)
+	l.r = r
+	return l.RootNode(baseInode)
+}
+
+// VerifNodeKindC07 tells which node type an InodeEmbedder is: "node", "whiteout", "state", "statfile" or "other".
+func VerifNodeKindC07(ops fusefs.InodeEmbedder) string {
+	switch ops.(type) {
+	case *node:
+		return "node"
+	case *whiteout:
+		return "whiteout"
+	case *state:
+		return "state"
+	case *statFile:
+		return "statfile"
+	}
+	return "other"
+}
+
+// VerifNodeIDC07 returns the metadata id a node or whiteout object was created for.
+func VerifNodeIDC07(ops fusefs.InodeEmbedder) (uint32, bool) {
+	switch n := ops.(type) {
+	case *node:
+		return n.id, true
+	case *whiteout:
+		return n.id, true
+	}
+	return 0, false
+}
+
+// VerifEntsCachedC07 reports whether the directory listing of a node is memoised.
+func VerifEntsCachedC07(ops fusefs.InodeEmbedder) bool {
+	n, ok := ops.(*node)
+	if !ok {
+		return false
+	}
+	n.entsMu.Lock()
+	defer n.entsMu.Unlock()
+	return n.entsCached
+}
